@@ -114,11 +114,13 @@ def lns[T](
         candidate = repair(partial, rng)
         candidate_obj = evaluate(candidate)
 
+        # the best evaluated candidate is recorded whatever the acceptance rule decides about the walk
+        if candidate_obj < best_obj:
+            best_solution, best_obj = candidate, candidate_obj
+            best_iter = iteration
+
         if accept_fn(current_obj, candidate_obj, iteration, rng):
             current, current_obj = candidate, candidate_obj
-            if current_obj < best_obj:
-                best_solution, best_obj = current, current_obj
-                best_iter = iteration
 
         if report_progress(
             on_progress,
